@@ -167,7 +167,19 @@ impl Prop for P {
             let r = inflate_loop_driver(&mut st, data, &[], &[(n + 1) as u32], MZFlush::None, true)?;
             vensure!(r.status == Ok(MZStatus::StreamEnd) && r.out == plain && r.consumed == t.enc_len(), "c03:inflate-finish-oneshot", "inflate() single Finish call: status {:?} out {} (want {})", r.status, r.out.len(), n);
         }
-        cx.evals(4);
+        {
+            // the window-bits constructor: any positive value means zlib, zero or negative raw
+            // (documented; the decoder has one window size)
+            let pos = [1i32, 7, 8, 9, 14, 15, 16, 31, 47, i32::MAX];
+            let neg = [0i32, -1, -8, -15, -16, i32::MIN];
+            let k = (case.fill_seed >> 20) as usize;
+            let wb = if t.zlib { pos[k % pos.len()] } else { neg[k % neg.len()] };
+            let mut st = InflateState::new_boxed_with_window_bits(wb);
+            let r = inflate_loop_driver(&mut st, data, chunks, &case.out_sizes, MZFlush::None, false)?;
+            vensure!(r.status == Ok(MZStatus::StreamEnd) && r.out == plain && r.consumed == t.enc_len(), "c03:inflate-window-bits-ctor", "InflateState::new_boxed_with_window_bits({wb}) on a valid {} stream: status {:?} out {} (want {})", if t.zlib { "zlib" } else { "raw" }, r.status, r.out.len(), n);
+            vensure!(miniz_oxide::DataFormat::from_window_bits(wb) == fmt_of(t.zlib), "c03:from_window_bits", "DataFormat::from_window_bits({wb})");
+        }
+        cx.evals(5);
 
         // 8. byte-by-byte with 1-byte budgets: which automaton states are reached as suspension points
         if data.len() <= 1500 && n <= 6000 {
